@@ -1436,7 +1436,7 @@ func opcodeLShift(op *ParsedOpcode, t *thread) error {
 	if err != nil {
 		return err
 	}
-	n := num.Int()
+	n := num.Int64() // clamped, so a count beyond int64 still shifts everything out
 
 	if n < 0 {
 		return errs.NewError(errs.ErrNumberTooSmall, "n less than 0")
@@ -1447,13 +1447,21 @@ func opcodeLShift(op *ParsedOpcode, t *thread) error {
 		return err
 	}
 
+	// shift the whole byte string left by n bits (zero filled, length preserved)
+	// into a fresh slice: the operand may be shared with other stack items
 	l := len(x)
-	for i := 0; i < l-1; i++ {
-		x[i] = x[i]<<n | x[i+1]>>(8-n)
+	r := make([]byte, l)
+	if n/8 < int64(l) {
+		byteShift, bitShift := int(n/8), uint(n%8)
+		for i := 0; i+byteShift < l; i++ {
+			r[i] = x[i+byteShift] << bitShift
+			if bitShift > 0 && i+byteShift+1 < l {
+				r[i] |= x[i+byteShift+1] >> (8 - bitShift)
+			}
+		}
 	}
-	x[l-1] <<= n
 
-	t.dstack.PushByteArray(x)
+	t.dstack.PushByteArray(r)
 	return nil
 }
 
@@ -1462,7 +1470,7 @@ func opcodeRShift(op *ParsedOpcode, t *thread) error {
 	if err != nil {
 		return err
 	}
-	n := num.Int()
+	n := num.Int64() // clamped, so a count beyond int64 still shifts everything out
 
 	if n < 0 {
 		return errs.NewError(errs.ErrNumberTooSmall, "n less than 0")
@@ -1473,13 +1481,21 @@ func opcodeRShift(op *ParsedOpcode, t *thread) error {
 		return err
 	}
 
+	// shift the whole byte string right by n bits (zero filled, length preserved)
+	// into a fresh slice: the operand may be shared with other stack items
 	l := len(x)
-	for i := l - 1; i > 0; i-- {
-		x[i] = x[i]>>n | x[i-1]<<(8-n)
+	r := make([]byte, l)
+	if n/8 < int64(l) {
+		byteShift, bitShift := int(n/8), uint(n%8)
+		for i := l - 1; i-byteShift >= 0; i-- {
+			r[i] = x[i-byteShift] >> bitShift
+			if bitShift > 0 && i-byteShift-1 >= 0 {
+				r[i] |= x[i-byteShift-1] << (8 - bitShift)
+			}
+		}
 	}
-	x[0] >>= n
 
-	t.dstack.PushByteArray(x)
+	t.dstack.PushByteArray(r)
 	return nil
 }
 
